@@ -435,11 +435,7 @@ func (p *Program) InlineBool(info *types.Info, call *ast.CallExpr) *facts.Inline
 		return nil
 	}
 	fd := p.ByObj[fn]
-	if fd == nil || fd.Decl.Body == nil || len(fd.Decl.Body.List) != 1 {
-		return nil
-	}
-	ret, ok := fd.Decl.Body.List[0].(*ast.ReturnStmt)
-	if !ok || len(ret.Results) != 1 {
+	if fd == nil || fd.Decl.Body == nil || len(fd.Decl.Body.List) == 0 || len(fd.Decl.Body.List) > 4 {
 		return nil
 	}
 	sig := fn.Type().(*types.Signature)
@@ -449,17 +445,38 @@ func (p *Program) InlineBool(info *types.Info, call *ast.CallExpr) *facts.Inline
 	if b, ok := sig.Results().At(0).Type().Underlying().(*types.Basic); !ok || b.Kind() != types.Bool {
 		return nil
 	}
-	hasLit := false
-	ast.Inspect(ret.Results[0], func(n ast.Node) bool {
-		if _, ok := n.(*ast.FuncLit); ok {
-			hasLit = true
+	pure := func(e ast.Expr) bool {
+		okp := true
+		ast.Inspect(e, func(n ast.Node) bool {
+			if _, isLit := n.(*ast.FuncLit); isLit {
+				okp = false
+			}
+			return okp
+		})
+		return okp
+	}
+	// guard clauses `if c { return e }` followed by the final `return e`
+	list := fd.Decl.Body.List
+	var clauses []facts.InlineClause
+	for i, st := range list {
+		if i == len(list)-1 {
+			break
 		}
-		return true
-	})
-	if hasLit {
+		ifs, isIf := st.(*ast.IfStmt)
+		if !isIf || ifs.Init != nil || ifs.Else != nil || len(ifs.Body.List) != 1 {
+			return nil
+		}
+		r, isRet := ifs.Body.List[0].(*ast.ReturnStmt)
+		if !isRet || len(r.Results) != 1 || !pure(ifs.Cond) || !pure(r.Results[0]) {
+			return nil
+		}
+		clauses = append(clauses, facts.InlineClause{Cond: ifs.Cond, Result: r.Results[0]})
+	}
+	ret, ok := list[len(list)-1].(*ast.ReturnStmt)
+	if !ok || len(ret.Results) != 1 || !pure(ret.Results[0]) {
 		return nil
 	}
-	ib := &facts.InlineBody{Expr: ret.Results[0], Info: fd.Pkg.TypesInfo, Recv: sig.Recv()}
+	ib := &facts.InlineBody{Expr: ret.Results[0], Guards: clauses, Info: fd.Pkg.TypesInfo, Recv: sig.Recv()}
 	for i := 0; i < sig.Params().Len(); i++ {
 		ib.Params = append(ib.Params, sig.Params().At(i))
 	}
